@@ -1,12 +1,12 @@
 SPECIFICATION Spec
 CONSTANTS
   NB = 1
-  Par <- MC_Par4
-  OtherOnly = {4}
+  Par <- MC_Chain3
+  OtherOnly = {}
   MaxSteps = 5
   MaxTerms = 5
-  Emit = "all"
-  FillChoices <- MC_Fill0
+  Emit = "stale"
+  FillChoices <- MC_FillMany
   Bug = "none"
 CONSTRAINT Small
 VIEW View
